@@ -95,6 +95,19 @@ func (v *VM) Run() (err error) {
 }
 
 func (v *VM) run() {
+	defer func() {
+		// The operand stack is a fixed array shared by all frames; pushes are
+		// not range-checked one by one. Running past its end (deep non-tail
+		// recursion, spreading a long array, a huge literal) is a stack
+		// overflow of the script, not an internal fault.
+		if r := recover(); r != nil {
+			if v.sp >= StackSize {
+				v.err = ErrStackOverflow
+				return
+			}
+			panic(r)
+		}
+	}()
 	for atomic.LoadInt64(&v.aborting) == 0 {
 		v.ip++
 		if verifEnabled {
